@@ -71,10 +71,11 @@ type abortSignal struct{ reason string }
 
 // SchedParams are the per-run scheduling knobs (all chosen from the seed by the plan generator).
 type SchedParams struct {
-	Chaos      float64 `json:"chaos"`       // probability of choosing uniformly among enabled actions
-	Preempt    int     `json:"preempt"`     // PCT-style budget of forced non-preferred choices at lock points
-	SegMode    int     `json:"seg_mode"`    // 0 whole backlog, 1 random segments, 2 tiny segments (1..3 bytes)
-	PermuteMap bool    `json:"permute_map"` // permute map iteration orders
+	Chaos      float64 `json:"chaos"`                 // probability of choosing uniformly among enabled actions
+	Preempt    int     `json:"preempt"`               // PCT-style budget of forced non-preferred choices at lock points
+	SegMode    int     `json:"seg_mode"`              // 0 whole backlog, 1 random segments, 2 tiny segments (1..3 bytes)
+	PermuteMap bool    `json:"permute_map"`           // permute map iteration orders
+	DrainFirst bool    `json:"drain_first,omitempty"` // prefer pending socket writes over everything else (writer goroutines keep up with producers)
 	MaxSteps   int     `json:"max_steps"`
 	MaxSimSec  int     `json:"max_sim_sec"`
 }
@@ -518,7 +519,18 @@ func (k *Kernel) choose(acts []action) action {
 	// preferred: continue the goroutine that ran last if it waits for a grant, else first grant, else first action
 	pref := 0
 	found := false
+	if k.P.DrainFirst {
+		for i, a := range acts {
+			if a.kind == "write" && a.wreq.dial == "" {
+				pref, found = i, true
+				break
+			}
+		}
+	}
 	for i, a := range acts {
+		if found {
+			break
+		}
 		if (a.kind == "grant" && a.req.gid == k.lastGid) || (a.kind == "write" && a.wreq.gid == k.lastGid) {
 			pref, found = i, true
 			break
